@@ -94,7 +94,7 @@ NonTrivialStep(s) ==
        \/ v \in Gone /\ s.before[t] # "none"
        \/ IsValid(v) /\ s.before[t] \notin {"none", v}
 
-Init == l = 1 /\ st = Idle /\ bad = {} /\ div = {} /\ stats = [scenarios |-> 0, nontrivial |-> 0, calls |-> 0, steps |-> 0]
+Init == l = 1 /\ st = Idle /\ bad = {} /\ div = {} /\ stats = [scenarios |-> 0, nontrivial |-> {}, calls |-> 0, steps |-> 0]
 
 OnReset(e) == /\ st' = Fresh(e)
               /\ UNCHANGED <<bad, div>>
@@ -144,7 +144,7 @@ OnQuiet(e) ==
   IN /\ bad' = bad \cup Entries(s0, rs, "", l)
      /\ st' = Taint(s0, rs)
      /\ UNCHANGED div
-     /\ stats' = [stats EXCEPT !.nontrivial = @ + (IF st.nontrivial THEN 1 ELSE 0)]
+     /\ stats' = [stats EXCEPT !.nontrivial = IF st.nontrivial THEN @ \cup {st.case} ELSE @]
 
 Next ==
   /\ l <= Len(Trace)
@@ -161,7 +161,8 @@ Spec == Init /\ [][Next]_vars
 
 Done ==
   /\ TLCGet("stats").diameter - 1 = Len(Trace)
-  /\ JsonSerialize(OutFile, [lines |-> Len(Trace), stats |-> TLCGet(3),
+  /\ JsonSerialize(OutFile, [lines |-> Len(Trace),
+                             stats |-> [TLCGet(3) EXCEPT !.nontrivial = SetToSeq(@)],
                              bad |-> SetToSeq(TLCGet(1)), div |-> SetToSeq(TLCGet(2))])
 
 Export == IF l = Len(Trace) + 1
